@@ -77,8 +77,16 @@ def _fix_arity(n: int, g: Callable[..., Any]) -> Callable[..., Any]:
     return lambda *a: g(*a)
 
 
+def lib_fn(name: str) -> Callable[..., Any]:
+    from vlib.fnsrc import rates
+
+    return getattr(rates, name)
+
+
 def make(fd: dict) -> Callable[..., Any]:
     kind = fd["kind"]
+    if kind == "lib":
+        return lib_fn(fd["name"])  # the source-backed function object itself
     n = fd["n"]
     if kind == "multi":
         parts = fd["parts"]  # list of scalar descriptors of same arity
@@ -102,6 +110,8 @@ def make(fd: dict) -> Callable[..., Any]:
 def evaluate(fd: dict, args: list) -> Any:
     """Reference evaluation of a descriptor (used by refeval; shares only the arithmetic)."""
     kind = fd["kind"]
+    if kind == "lib":
+        return lib_fn(fd["name"])(*[_sc(a) for a in args])
     if kind == "multi":
         return tuple(_EVAL[p["kind"]](p["c"], tuple(args)) for p in fd["parts"])
     return _EVAL[kind](fd["c"], tuple(args))
